@@ -42,6 +42,7 @@ type Ctx struct {
 	seq         int64
 	sampleOut   map[string]any
 	curCase     any
+	inexact     map[string]bool
 }
 
 // signature summarises what a run observed (outcome labels and finding classes).
@@ -71,6 +72,9 @@ func (c *Ctx) merge(o *Ctx) {
 			c.sampleOut[k] = v
 		}
 	}
+	for k := range o.inexact {
+		c.Inexact(k)
+	}
 	for k, f := range o.findings {
 		a := c.findings[k]
 		if a == nil {
@@ -82,6 +86,14 @@ func (c *Ctx) merge(o *Ctx) {
 			a.Seq, a.Msg, a.Case = f.Seq, f.Msg, f.Case
 		}
 	}
+}
+
+// Inexact records that the enumeration of this sub-check was not exhaustive, and why.
+func (c *Ctx) Inexact(reason string) {
+	if c.inexact == nil {
+		c.inexact = map[string]bool{}
+	}
+	c.inexact[reason] = true
 }
 
 // Eval counts n executions of real code.
@@ -286,6 +298,7 @@ type subStats struct {
 	Transitions int64            `json:"transitions"`
 	Outcomes    map[string]int64 `json:"outcome_histogram"`
 	Exhaustive  bool             `json:"exhaustive"`
+	Inexact     []string         `json:"inexact_because,omitempty"`
 	WallS       float64          `json:"wall_s"`
 }
 
@@ -327,7 +340,11 @@ func Main(chk *Check, tier string, seed int64, replayPath string) int {
 		stats = append(stats, st)
 		if !st.Exhaustive {
 			allExhaustive = false
-			capsHit = append(capsHit, fmt.Sprintf("%s: deadline hit after %d cases", sub.Name, st.Cases))
+			if len(st.Inexact) > 0 {
+				capsHit = append(capsHit, fmt.Sprintf("%s: %s", sub.Name, strings.Join(st.Inexact, "; ")))
+			} else {
+				capsHit = append(capsHit, fmt.Sprintf("%s: deadline hit after %d cases", sub.Name, st.Cases))
+			}
 		}
 		for _, s := range smp {
 			if len(samples) < 40 {
@@ -812,6 +829,10 @@ func runSub(sub *Sub, tier string, deadline time.Time) (subStats, []any, map[str
 	classes := map[string]*classAgg{}
 	outSamples := map[string]any{}
 	for _, ctx := range ctxs {
+		for reason := range ctx.inexact {
+			st.Exhaustive = false
+			st.Inexact = append(st.Inexact, reason)
+		}
 		st.Evals += ctx.evals
 		st.Nontrivial += ctx.nontrivial
 		st.States += ctx.states
